@@ -259,6 +259,51 @@ def source_literals(pid, exact_first=False):
     return sorted(out)[:400]
 
 
+def source_strings(pid):
+    """short string literals of the property's source files, with `{}` / `%s` / `%d` placeholders also filled in by small
+    numbers: texts that mean something to the code (markers, separators, keys) offered to it as user text"""
+    import ast
+    try:
+        props = [json.loads(l) for l in open(os.path.join(VERIF, "properties.jsonl"))]
+        files = next(p["anchors"]["files"] for p in props if p["id"] == pid)
+    except Exception:
+        files = []
+    repo = os.environ.get("VERIF_REPO", "/repo")
+    out = []
+    for f in files:
+        if f.endswith("bip39_wordlist/__init__.py"):
+            continue
+        try:
+            tree = ast.parse(open(os.path.join(repo, f), encoding="utf-8").read())
+        except Exception:
+            continue
+        doc = set()
+        for n in ast.walk(tree):
+            if isinstance(n, (ast.FunctionDef, ast.ClassDef, ast.Module)):
+                d = ast.get_docstring(n, clean=False)
+                if d:
+                    doc.add(d)
+        for n in ast.walk(tree):
+            if isinstance(n, ast.Constant) and isinstance(n.value, str) and 0 < len(n.value) <= 24 and \
+                    n.value not in doc and "\n" not in n.value:
+                v = n.value
+                cand = [v]
+                if "{" in v or "%" in v:
+                    for k in (0, 1, 7):
+                        try:
+                            cand.append(v.format(k))
+                        except Exception:
+                            pass
+                        try:
+                            cand.append(v % k)
+                        except Exception:
+                            pass
+                for c in cand:
+                    if c not in out:
+                        out.append(c)
+    return out[:200]
+
+
 def literal_probe(mod, pid, impl, known, max_ops=None):
     """run the property's operations at the source's own literals; returns oracle failures"""
     fn = getattr(mod, "literal_ops", None)
@@ -266,6 +311,22 @@ def literal_probe(mod, pid, impl, known, max_ops=None):
         return [], 0
     fails = []
     n = 0
+    fs = getattr(mod, "literal_str_ops", None)
+    if fs is not None:
+        m_ = 0
+        for txt in source_strings(pid):
+            if max_ops is not None and m_ >= getattr(mod, "LITERAL_STR_BUDGET", 40):
+                break
+            for line in fs(txt):
+                m_ += 1
+                body = line.split(" #")[0]
+                o = impl.run(body)
+                try:
+                    msg = mod.oracle(line, o)
+                except Exception:
+                    continue
+                if msg and not mod.known_match(line, o, msg, known):
+                    fails.append((line, msg))
     lits = source_literals(pid, exact_first=max_ops is not None)   # quick tier: the literals themselves first, then
     if max_ops is not None:                                         # their neighbours while the budget lasts
         lits = [v for v in lits if v <= 2 ** 16] + [v for v in lits if v > 2 ** 16]
@@ -282,7 +343,7 @@ def literal_probe(mod, pid, impl, known, max_ops=None):
                 continue
             if msg and not mod.known_match(line, o, msg, known):
                 fails.append((line, msg))
-    return fails, n
+    return fails, n + (m_ if fs is not None else 0)
 
 
 def load_known(pid):
@@ -529,6 +590,33 @@ def decide(pid, tier, seed, replay, t0):
         info["alternative_form_cases"] = n_alt
     except Exception as e:      # noqa
         info["alternative_form_cases"] = "error %r" % e
+    # ---- copies: a node / wallet that went through pickle, copy.deepcopy or copy.copy (all of which the unchanged
+    # classes support) must answer like the original
+    try:
+        rng4 = random.Random(seed + 123)
+        cand = [i for i in range(len(lines)) if len(lines[i]) < 20000 and impl_out[i].startswith("ok ") and
+                (" N " in impl_out[i] or impl_out[i].startswith(("ok N", "ok W")))]
+        pick = rng4.sample(cand, min(len(cand), 150 if tier == "quick" else 2000))
+        pick = sorted(within_budget(pick, 5.0 if tier == "quick" else 200.0))
+        n_cp = 0
+        for i in pick:
+            how = ("pickle", "deepcopy", "copy")[n_cp % 3]
+            o2 = impl.run_copy(lines[i], how)
+            n_cp += 1
+            if o2 != impl_out[i] and impl.run(lines[i]) == impl_out[i]:
+                try:
+                    msg = mod.oracle(full_lines[i], o2)
+                except Exception:
+                    msg = None
+                if msg and not mod.known_match(full_lines[i], o2, msg, known):
+                    failures.append((full_lines[i], "after a %s of the resulting object: %s" % (how, msg)))
+                    if len(failures) > 20:
+                        break
+                else:
+                    info["copy_differences"] = info.get("copy_differences", 0) + 1
+        info["copy_cases"] = n_cp
+    except Exception as e:      # noqa
+        info["copy_cases"] = "error %r" % e
     # ---- something broke: search harder for a concrete failing input
     searched = 0
     probed = 0
@@ -569,6 +657,7 @@ def decide(pid, tier, seed, replay, t0):
         "exhaustive": False,
         "optimized_interpreter_cases": info.get("optimized_interpreter_cases", 0),
         "alternative_form_cases": info.get("alternative_form_cases", 0),
+        "copy_cases": info.get("copy_cases", 0), "copy_differences": info.get("copy_differences", 0),
         "optimized_interpreter_differences": info.get("optimized_interpreter_differences", 0),
         "alternative_form_differences": info.get("alternative_form_differences", 0),
     }
